@@ -34,6 +34,9 @@ CAT = [
     ("string", "e", ""),  # no content at all (accepted by the splitter as an @string block): resolves to the empty text
     ("string", "n", '""'),  # empty content in quotes
     ("entry", "f", "k6", [("t", '"{a {b} 12" c}"'), ("j", "s"), ("u", "{x {y} \"z\"}"), ("w", "t")]),  # a reference after values whose quotes and braces interleave
+    ("string", "a.b", '"dot"'),  # names holding characters with a meaning in regular expressions / templates
+    ("string", "x+y", "{plus}"),
+    ("entry", "g", "k7", [("m1", "a.b"), ("m2", "axb"), ("m3", "x+y"), ("m4", "xy"), ("m5", "x++y"), ("m6", "{a.b}"), ("m7", "%s"), ("m8", "a.b # x+y")]),
     ("garbage", "@string{oops"),  # a definition that breaks off (a failed block): what follows is defined and resolved as ever
 ]
 
@@ -63,7 +66,10 @@ def strip1(v):
 
 
 def is_bare(v):
-    return not (len(v) >= 2 and ((v[0] == "{" and v[-1] == "}") or (v[0] == '"' and v[-1] == '"'))) and v.isidentifier()
+    """An unenclosed value that is one name: no enclosing, no concatenation, no white space (names may hold characters
+    that mean something to regular expressions or templates: a.b, x+y - they match literally)."""
+    enclosed = len(v) >= 2 and ((v[0] == "{" and v[-1] == "}") or (v[0] == '"' and v[-1] == '"'))
+    return not enclosed and v != "" and not any(c in v for c in '#{}" \t\r\n,=') and not v.isdigit()
 
 
 def check_doc(ids, acc, case=None, nl="\n"):
